@@ -31,7 +31,7 @@ Definition cval_eqb (a b : cval) : bool :=
   match a, b with
   | CAccount s, CAccount t | CAsset s, CAsset t | CString s, CString t => String.eqb s t
   | CNumber n, CNumber m => n =? m
-  | CPortion p, CPortion q => Qeq_bool p q
+  | CPortion p, CPortion q => (Qnum p =? Qnum q) && Pos.eqb (Qden p) (Qden q)   (* both normalised (Sem.check): Rat.Cmp = 0 iff identical *)
   | CRemaining, CRemaining => true
   | _, _ => false
   end.
@@ -242,8 +242,17 @@ Fixpoint find_res (t : list rdesc) (r : rdesc) (i : nat) : option nat :=
   | x :: tl => if rdesc_eqb x r then Some i else find_res tl r (S i)
   end.
 (* address of r; the table grows by one when r is new *)
-Definition intern (t : list rdesc) (r : rdesc) : list rdesc * nat :=
+Definition intern1 (t : list rdesc) (r : rdesc) : list rdesc * nat :=
   match find_res t r O with Some i => (t, i) | None => (t ++ [r], List.length t) end.
+(* the resources a resource refers to are allocated first (VisitExpr on the asset / account before the
+   AllocateResource of the monetary / variable) *)
+Fixpoint intern (t : list rdesc) (r : rdesc) : list rdesc * nat :=
+  match r with
+  | RMon ra _ => intern1 (fst (intern t ra)) r
+  | RVarMeta _ _ acc _ => intern1 (fst (intern t acc)) r
+  | RVarBal _ acc asset => intern1 (fst (intern (fst (intern t acc)) asset)) r
+  | _ => intern1 t r
+  end.
 
 Definition map_instr {A B} (f : A -> B) (i : instr A) : instr B :=
   match i with
